@@ -31,6 +31,9 @@ theorem lk_lbQuiet {α : Type} (op : LM α) : Keeps Ed.lk (lbQuiet op) := by
   | ok r => obtain ⟨a, l, ns⟩ := r; rfl
 
 theorem lk_getLine : Keeps Ed.lk getLine := ⟨fun _ => rfl⟩
+theorem sk_lowerMark (m : Nat) : Keeps Ed.sk (lowerMark m) := ⟨fun _ => rfl⟩
+theorem wp_lowerMark_top {mark : Nat} {Q : Nat → Ed → Prop} {E : Outcome → Ed → Prop} {s : Ed} :
+    wp (lowerMark mark) Q E s = Q (min mark s.changes.undos.length) s := rfl
 
 theorem Est.bind_pres {α β : Type} {m : EM α} {g : α → EM β} (hm : Est S U cfg m) (hg : ∀ a, Pres S U cfg (Sh S U cfg) (g a)) :
     Est S U cfg (m >>= g) := by
@@ -89,35 +92,37 @@ include hnext
 
 theorem pres_completeCircular (start : Nat) (cands : List Text) (mark : Nat) (backup : Text) (backupPos : Nat)
     (fuel i : Nat) : Pres S U cfg (Sh S U cfg) (completeCircular S U cfg start cands mark backup backupPos fuel i) := by
-  induction fuel generalizing i with
+  induction fuel generalizing i mark with
   | zero => unfold completeCircular; exact Pres.exit _
   | succ k ih =>
     unfold completeCircular
     apply Pres.of_est
-    have hfin : Pres S U cfg (Sh S U cfg) (do truncateChanges mark; Pure.pure none : EM (Option Cmd)) :=
-      Pres.bind (Pres.of_keeps (sk_truncateChanges _)) fun _ => Pres.pure _
-    have hab1 : Pres S U cfg (Sh S U cfg) (do
+    have hfin : ∀ mark : Nat, Pres S U cfg (Sh S U cfg) (do truncateChanges mark; Pure.pure none : EM (Option Cmd)) :=
+      fun _ => Pres.bind (Pres.of_keeps (sk_truncateChanges _)) fun _ => Pres.pure _
+    have hab1 : ∀ mark : Nat, Pres S U cfg (Sh S U cfg) (do
         lb S U (LB.update S U backup backupPos)
         refreshLine S U cfg
         truncateChanges mark
         Pure.pure none : EM (Option Cmd)) :=
-      Pres.of_est (Est.bind_keeps (lk_lb _) fun _ => Est.bind_pres (est_refreshLine hc hprompt) fun _ => hfin)
-    have hcont : ∀ ab : EM (Option Cmd), Pres S U cfg (Sh S U cfg) ab → Est S U cfg (do
+      fun m => Pres.of_est (Est.bind_keeps (lk_lb _) fun _ => Est.bind_pres (est_refreshLine hc hprompt) fun _ => hfin m)
+    have hcont : ∀ ab : Nat → EM (Option Cmd), (∀ m, Pres S U cfg (Sh S U cfg) (ab m)) → Est S U cfg (do
         refreshLine S U cfg
         let cmd ← nextCmd S U cfg k true true
+        let mark ← lowerMark mark
         match cmd with
           | .complete => completeCircular S U cfg start cands mark backup backupPos k (compNext cands.length i)
           | .completeBackward => completeCircular S U cfg start cands mark backup backupPos k (compPrev cands.length i)
-          | .abort => ab
+          | .abort => ab mark
           | _ => do
             let _ ← changesEnd
             Pure.pure (some cmd)) := by
       intro ab hab
-      refine Est.bind_pres (est_refreshLine hc hprompt) fun _ => Pres.bind (hnext k true true) fun cmd => ?_
+      refine Est.bind_pres (est_refreshLine hc hprompt) fun _ => Pres.bind (hnext k true true) fun cmd =>
+        Pres.bind (Pres.of_keeps (sk_lowerMark _)) fun mark' => ?_
       split
-      · exact ih _
-      · exact ih _
-      · exact hab
+      · exact ih _ _
+      · exact ih _ _
+      · exact hab _
       · exact Pres.bind (Pres.of_keeps sk_changesEnd) fun _ => Pres.pure _
     simp only []
     split
@@ -134,7 +139,7 @@ theorem est_searchLoop (mark : Nat) (backup : Text) (backupPos : Nat) :
     ∀ (fuel : Nat) (sb : Text) (hi : Nat) (d : Dir) (succ : Bool),
       Est S U cfg (searchLoop S U cfg mark backup backupPos fuel sb hi d succ) := by
   intro fuel
-  induction fuel with
+  induction fuel generalizing mark with
   | zero => intro sb hi d succ; unfold searchLoop; exact ⟨fun s h => h.ok⟩
   | succ fuel ih =>
     intro sb hi d succ
@@ -145,28 +150,30 @@ theorem est_searchLoop (mark : Nat) (backup : Text) (backupPos : Nat) :
     refine wp_mono (wp_refreshPromptAndLine_sha hc hprompt _ ⟨sb, succ, rfl⟩ h) (fun _ s1 h1 => ?_) (fun _ _ e => e)
     refine wp_mono ((pres_nextCmd_any hc hprompt fuel true true).h s1 h1) (fun cmd s2 h2a => ?_) (fun _ _ e => e)
     have h2 : LogInv S U cfg s2 := h2a.inv
-    have hds : ∀ (sb : Text) (hi : Nat) (d : Dir),
+    show wp (lowerMark mark) _ _ s2
+    rw [wp_lowerMark_top]
+    have hds : ∀ (mark : Nat) (sb : Text) (hi : Nat) (d : Dir),
         wp (match (memHist cfg).search sb hi d with
             | some (idx, entry, pos) => do
               lb S U (LB.update S U entry pos)
               searchLoop S U cfg mark backup backupPos fuel sb idx d true
             | none => searchLoop S U cfg mark backup backupPos fuel sb hi d false)
           (fun _ s' => Sh S U cfg s') (fun _ s' => LogOK S U cfg s') s2 := by
-      intro sb hi d
+      intro mark sb hi d
       cases (memHist cfg).search sb hi d with
-      | none => exact (ih _ _ _ _).h s2 h2
+      | none => exact (ih _ _ _ _ _).h s2 h2
       | some r =>
         obtain ⟨idx, entry, pos⟩ := r
-        exact (Est.bind_keeps (lk_lb _) fun _ => ih _ _ _ _).h s2 h2
+        exact (Est.bind_keeps (lk_lb _) fun _ => ih _ _ _ _ _).h s2 h2
     split
-    · exact hds _ _ _
-    · exact (ih _ _ _ _).h s2 h2
+    · exact hds _ _ _ _
+    · exact (ih _ _ _ _ _).h s2 h2
     · split
-      · exact hds _ _ _
-      · exact (ih _ _ _ _).h s2 h2
+      · exact hds _ _ _ _
+      · exact (ih _ _ _ _ _).h s2 h2
     · split
-      · exact hds _ _ _
-      · exact (ih _ _ _ _).h s2 h2
+      · exact hds _ _ _ _
+      · exact (ih _ _ _ _ _).h s2 h2
     · exact (Est.bind_keeps (lk_lb _) fun _ => Est.bind_pres (est_refreshLine hc hprompt) fun _ =>
         Pres.bind (Pres.of_keeps (sk_truncateChanges _)) fun _ => Pres.pure _).h s2 h2
     · exact (Est.bind_pres (est_refreshLine hc hprompt) fun _ =>
